@@ -7,6 +7,12 @@
 //! mask).  The real vek structs are built by struct literal and decoded by field access only.
 //! Element types: i32 (u-unit = 1), the exact rational X and f64 (u-unit = 1/2, so X and f64 really run
 //! on half-integers).
+//!
+//! Audit additions (out/AUDIT.md; sections after "map, as_ and Aabr::from(Aabb)"): the same mask oracles under strictly increasing
+//! relabellings of the model coordinates (i32 with corners on ALL integers; tables reaching the least/greatest value of i32, i64,
+//! u8, f64, f32 including +-infinity) for the comparison-only methods; i32 arithmetic on odd corners (truncating division);
+//! the Rect == Aab differential on negative-extent and odd rectangles; the pair laws that set semantics still fixes when an
+//! operand is invalid; the anchored Vec partial_min/partial_max/Clamp impls called directly; call sequences; an f32 distance tier.
 use rayon::prelude::*;
 use std::fmt::Debug;
 use std::ops::*;
@@ -27,6 +33,10 @@ trait El: Copy + PartialOrd + Debug + Send + Sync + 'static + Add<Output = Self>
 impl El for i32 { const NAME: &'static str = "i32"; fn from_u(u: i32) -> i32 { u } }
 impl El for X { const NAME: &'static str = "X"; fn from_u(u: i32) -> X { q(u as i128, 2) } }
 impl El for f64 { const NAME: &'static str = "f64"; fn from_u(u: i32) -> f64 { u as f64 * 0.5 } }
+// further element types (sections "relabelling", "distance_to_point" f32 tier); the relabelling sections use explicit value tables, not from_u
+impl El for f32 { const NAME: &'static str = "f32"; fn from_u(u: i32) -> f32 { u as f32 * 0.5 } }
+impl El for i64 { const NAME: &'static str = "i64"; fn from_u(u: i32) -> i64 { u as i64 } }
+impl El for u8 { const NAME: &'static str = "u8"; fn from_u(u: i32) -> u8 { u8::try_from(u).expect("u8 model coordinate") } }
 
 /// typed box `[min, max]` or typed rectangle `[position, extent]`
 type TB<T, const D: usize> = [[T; D]; 2];
@@ -76,10 +86,13 @@ struct Uni<const D: usize> {
     open: Vec<Mask>,      // per valid box: its interior points
 }
 impl<const D: usize> Uni<D> {
-    fn new(g: usize, shift: i32) -> Self {
-        assert!(shift % 2 == 0);
-        let base = shift - 1;
-        let nc = 2 * g + 1;
+    fn new(g: usize, shift: i32) -> Self { Self::with_margin(g, shift, 1) }
+    /// `margin` = number of point coordinates beyond the outermost corners on each side (1 everywhere except in the
+    /// extreme-magnitude alphabets, where the outermost corner is the least/greatest value of the type and nothing lies beyond)
+    fn with_margin(g: usize, shift: i32, margin: i32) -> Self {
+        assert!(shift % 2 == 0 && (margin == 0 || margin == 1) && g >= 1);
+        let base = shift - margin;
+        let nc = 2 * g - 1 + 2 * margin as usize;
         let npts = nc.pow(D as u32);
         assert!(npts <= 64 * W);
         let mut pts = Vec::with_capacity(npts);
@@ -148,8 +161,24 @@ impl Tally {
 fn run<V: PartialEq + Debug>(s: &Section, t: &mut Tally, nt: bool, site: &str, class: &str, inp: &dyn Fn() -> Value, w: u64, f: impl FnOnce() -> V, want: &V) {
     t.eval(nt);
     if let Some(g) = s.call(site, || inp(), f) {
-        if &g != want { s.violation_w(site, class, json!({"input": inp(), "got": jd(&g), "want": jd(want)}), w); }
+        if &g != want { report(s, site, class, w, || json!({"input": inp(), "got": jd(&g), "want": jd(want)})); }
     }
+}
+
+/// Mass failures (a defect that breaks every case of a section) must not take hours to write out: the first REPORT_CAP violations
+/// of a site|class are all handed to the report; after that only one that is lighter than every earlier one of that key (so the
+/// smallest witness is always kept).  The verdict is unaffected: one reported violation already fails the run.
+const REPORT_CAP: u64 = 400;
+fn report(s: &Section, site: &str, class: &str, w: u64, detail: impl FnOnce() -> Value) {
+    static SEEN: std::sync::OnceLock<std::sync::Mutex<std::collections::HashMap<String, (u64, u64)>>> = std::sync::OnceLock::new();
+    let go = {
+        let mut m = SEEN.get_or_init(Default::default).lock().unwrap();
+        let e = m.entry(format!("{}|{}", site, class)).or_insert((0, u64::MAX));
+        let go = e.0 < REPORT_CAP || w < e.1;
+        e.0 += 1; if w < e.1 { e.1 = w; }
+        go
+    };
+    if go { s.violation_w(site, class, detail(), w); }
 }
 
 // ------------------------------------------------------------------------------------------------
@@ -205,6 +234,15 @@ trait Geo<const D: usize>: 'static {
     fn r_plumb<T: El>(r: TB<T, D>, which: usize) -> TB<T, D>;
     fn r_map<T: Copy, P: Copy, E: Copy>(r: TB<T, D>, pf: impl FnMut(T) -> P, ef: impl FnMut(T) -> E) -> ([P; D], [E; D]);
     fn r_as<T: Copy + AsPrimitive<P> + AsPrimitive<E>, P: 'static + Copy, E: 'static + Copy>(r: TB<T, D>) -> ([P; D], [E; D]);
+    // the anchored mechanism, called directly: vector partial_min / partial_max (vector and array operands), vector clamp with
+    // vector bounds (method and `Clamp::clamp` alias) and with scalar bounds
+    fn v_partial_min<T: El>(a: [T; D], b: [T; D]) -> [T; D];
+    fn v_partial_max<T: El>(a: [T; D], b: [T; D]) -> [T; D];
+    fn v_partial_min_arr<T: El>(a: [T; D], b: [T; D]) -> [T; D];
+    fn v_partial_max_arr<T: El>(a: [T; D], b: [T; D]) -> [T; D];
+    fn v_clamped<T: El>(p: [T; D], lo: [T; D], hi: [T; D]) -> [T; D];
+    fn v_clamp_alias<T: El>(p: [T; D], lo: [T; D], hi: [T; D]) -> [T; D];
+    fn v_clamped_scalar<T: El>(p: [T; D], lo: T, hi: T) -> [T; D];
 }
 
 macro_rules! geo_impl {
@@ -290,6 +328,13 @@ macro_rules! geo_impl {
             }
             fn r_map<T: Copy, P: Copy, E: Copy>(r: TB<T, $D>, pf: impl FnMut(T) -> P, ef: impl FnMut(T) -> E) -> ([P; $D], [E; $D]) { Self::dr(Self::r(r).map(pf, ef)) }
             fn r_as<T: Copy + AsPrimitive<P> + AsPrimitive<E>, P: 'static + Copy, E: 'static + Copy>(r: TB<T, $D>) -> ([P; $D], [E; $D]) { Self::dr(Self::r(r).as_::<P, E>()) }
+            fn v_partial_min<T: El>(a: [T; $D], b: [T; $D]) -> [T; $D] { Self::dv($Vec::<T>::partial_min(Self::v(a), Self::v(b))) }
+            fn v_partial_max<T: El>(a: [T; $D], b: [T; $D]) -> [T; $D] { Self::dv($Vec::<T>::partial_max(Self::v(a), Self::v(b))) }
+            fn v_partial_min_arr<T: El>(a: [T; $D], b: [T; $D]) -> [T; $D] { Self::dv($Vec::<T>::partial_min(a, b)) }
+            fn v_partial_max_arr<T: El>(a: [T; $D], b: [T; $D]) -> [T; $D] { Self::dv($Vec::<T>::partial_max(a, b)) }
+            fn v_clamped<T: El>(p: [T; $D], lo: [T; $D], hi: [T; $D]) -> [T; $D] { Self::dv(<$Vec<T> as Clamp<$Vec<T>>>::clamped(Self::v(p), Self::v(lo), Self::v(hi))) }
+            fn v_clamp_alias<T: El>(p: [T; $D], lo: [T; $D], hi: [T; $D]) -> [T; $D] { Self::dv(<$Vec<T> as Clamp<$Vec<T>>>::clamp(Self::v(p), Self::v(lo), Self::v(hi))) }
+            fn v_clamped_scalar<T: El>(p: [T; $D], lo: T, hi: T) -> [T; $D] { Self::dv(<$Vec<T> as Clamp<T>>::clamped(Self::v(p), lo, hi)) }
         }
     };
 }
@@ -620,16 +665,19 @@ fn collision_vector<G: Geo<D>, T: El, const D: usize>(s: &Section, u: &Uni<D>) {
     });
 }
 
-fn rect_conversions<G: Geo<D>, T: El, const D: usize>(s: &Section, u: &Uni<D>) {
+fn rect_conversions<G: Geo<D>, T: El, const D: usize>(s: &Section, u: &Uni<D>) { rect_conversions_on::<G, T, D>(s, &u.vboxes) }
+/// the same on the invalid boxes: the rectangle has a negative extent on the inverted axes, the conversions stay field-exact
+fn rect_conversions_invalid<G: Geo<D>, T: El, const D: usize>(s: &Section, u: &Uni<D>) { let inv: Vec<UB<D>> = u.boxes.iter().filter(|b| !valid(b)).copied().collect(); rect_conversions_on::<G, T, D>(s, &inv) }
+fn rect_conversions_on<G: Geo<D>, T: El, const D: usize>(s: &Section, boxes: &[UB<D>]) {
     let (st_ir, st_rf, st_ia, st_af) = (sa::<G, T, D>(G::INTO_RECT), format!("{}::from({})<{}>", G::RECT, G::AAB, T::NAME), sr::<G, T, D>(G::INTO_AAB), format!("{}::from({})<{}>", G::AAB, G::RECT, T::NAME));
     let st_pl: Vec<String> = PLUMB.iter().map(|m| sr::<G, T, D>(m)).collect();
-    u.vboxes.par_iter().for_each(|a| {
+    boxes.par_iter().for_each(|a| {
         let mut t = Tally::new();
         let xa = tb::<T, D>(a);
         let xr = tb::<T, D>(&rect_of(a));
         let w = wb(a);
-        let nt = a[0].iter().any(|&v| v != 0) && posext(a);
-        t.class(if posext(a) { "positive-extent" } else { "zero-extent-axis" });
+        let nt = a[0].iter().any(|&v| v != 0) && (posext(a) || !valid(a));
+        t.class(if !valid(a) { "negative-extent" } else if posext(a) { "positive-extent" } else { "zero-extent-axis" });
         if a[0].iter().all(|&v| v != 0) { t.class("position-nonzero-on-every-axis"); }
         let ib = || json!({"box[min,max]": jd(&xa)});
         let ir = || json!({"rect[position,extent]": jd(&xr)});
@@ -723,20 +771,22 @@ fn rect_methods<G: Geo<D>, T: El, const D: usize>(s: &Section, u: &Uni<D>) {
 }
 
 /// map / as_ with order-preserving lossless conversions: the fields must be the converted fields
-fn mapping<G: Geo<D>, const D: usize>(s: &Section, u: &Uni<D>) {
+fn mapping<G: Geo<D>, const D: usize>(s: &Section, u: &Uni<D>) { mapping_on::<G, D>(s, &u.vboxes) }
+fn mapping_invalid<G: Geo<D>, const D: usize>(s: &Section, u: &Uni<D>) { let inv: Vec<UB<D>> = u.boxes.iter().filter(|b| !valid(b)).copied().collect(); mapping_on::<G, D>(s, &inv) }
+fn mapping_on<G: Geo<D>, const D: usize>(s: &Section, boxes: &[UB<D>]) {
     fn cv<A: Copy, B: Copy, const D: usize>(b: &TB<A, D>, f: impl Fn(A) -> B) -> TB<B, D> { [b[0].map(&f), b[1].map(&f)] }
     let a = |m: &str, t: &str| format!("{}::{}<{}>", G::AAB, m, t);
     let r = |m: &str, t: &str| format!("{}::{}<{}>", G::RECT, m, t);
     const CL: &str = "fields-are-not-the-converted-fields";
-    for b in &u.vboxes {
+    for b in boxes {
         let mut t = Tally::new();
         let bi: TB<i32, D> = *b;
         let (bx, bf) = (tb::<X, D>(b), tb::<f64, D>(b));
         let ri = rect_of(b);
         let (rx, rf) = (tb::<X, D>(&ri), tb::<f64, D>(&ri));
         let w = wb(b);
-        let nt = posext(b);
-        t.class(if nt { "positive-extent" } else { "zero-extent-axis" });
+        let nt = posext(b) || !valid(b);
+        t.class(if !valid(b) { "invalid-box" } else if nt { "positive-extent" } else { "zero-extent-axis" });
         let ii = || json!({"box[min,max]": jd(&bi)});
         let ix = || json!({"box[min,max]": jd(&bx)});
         let iff = || json!({"box[min,max]": jd(&bf)});
@@ -761,9 +811,11 @@ fn mapping<G: Geo<D>, const D: usize>(s: &Section, u: &Uni<D>) {
 }
 
 /// Aabr::from(Aabb): the shadow of the box on the xy plane
-fn flatten<T: El>(s: &Section, u3: &Uni<3>) {
+fn flatten<T: El>(s: &Section, u3: &Uni<3>) { flatten_on::<T>(s, &u3.vboxes) }
+fn flatten_invalid<T: El>(s: &Section, u3: &Uni<3>) { let inv: Vec<UB<3>> = u3.boxes.iter().filter(|b| !valid(b)).copied().collect(); flatten_on::<T>(s, &inv) }
+fn flatten_on<T: El>(s: &Section, boxes: &[UB<3>]) {
     let st = format!("Aabr::from(Aabb)<{}>", T::NAME);
-    for b in &u3.vboxes {
+    for b in boxes {
         let mut t = Tally::new();
         let x = tb::<T, 3>(b);
         // { (x,y) : some (x,y,z) is in the box } has the bounding box (min.xy, max.xy) because the box is a product of intervals
@@ -777,6 +829,479 @@ fn flatten<T: El>(s: &Section, u3: &Uni<3>) {
 }
 
 // ------------------------------------------------------------------------------------------------
+// added by the clause-by-clause audit (out/AUDIT.md): alphabets the first version did not reach
+
+/// nine strictly increasing values per element type; a universe with nc point coordinates uses the sub-table `sub9(.., nc)`,
+/// whose even positions (the corner coordinates) include the least and the greatest value of the type
+fn sub9<T: Copy>(t: &[T; 9], nc: usize) -> Vec<T> {
+    let ix: &[usize] = match nc { 5 => &[0, 2, 4, 6, 8], 7 => &[0, 1, 3, 4, 5, 7, 8], 9 => &[0, 1, 2, 3, 4, 5, 6, 7, 8], _ => panic!("no sub-table of length {}", nc) };
+    ix.iter().map(|&i| t[i]).collect()
+}
+const T9_I32: [i32; 9] = [i32::MIN, i32::MIN + 1, -2, -1, 0, 1, 2, i32::MAX - 1, i32::MAX];
+const T9_I64: [i64; 9] = [i64::MIN, i64::MIN + 1, -2, -1, 0, 1, 2, i64::MAX - 1, i64::MAX];
+const T9_U8: [u8; 9] = [0, 1, 2, 127, 128, 129, 253, 254, 255];
+const T9_F64_FINITE: [f64; 9] = [-f64::MAX, -1e300, -1.0, -5e-324, 0.0, 5e-324, 1.0, 1e300, f64::MAX];
+const T9_F64_INF: [f64; 9] = [f64::NEG_INFINITY, -f64::MAX, -1.5, -1.0, 0.0, 1.0, 1.5, f64::MAX, f64::INFINITY];
+const T9_F32: [f32; 9] = [f32::NEG_INFINITY, -f32::MAX, -1.0, -1.0e-45, 0.0, 1.0e-45, 1.0, f32::MAX, f32::INFINITY];
+
+/// Comparison-only methods under a strictly increasing labelling `f` of the model coordinates (`None`: the coordinate has no
+/// value of type T; such points are left out, corners are always labelled).  min/max/<=/< commute with every strictly
+/// increasing map, so the labelled result must be the label of the mask oracle's result.
+fn ordered_ops<G: Geo<D>, T: El, const D: usize>(s: &Section, u: &Uni<D>, alphabet: &'static str, f: &(dyn Fn(i32) -> Option<T> + Sync)) {
+    let defined: Vec<T> = (0..u.nc as i32).filter_map(|k| f(k + u.base)).collect();
+    if defined.is_empty() || defined.windows(2).any(|w| !(w[0] < w[1])) || (0..u.g as i32).any(|k| f(2 * k + u.shift).is_none()) {
+        s.rep.machinery_error(format!("labelling {} is not strictly increasing or misses a corner coordinate", alphabet));
+        return;
+    }
+    let filler = defined[0];
+    let lp = |p: &[i32; D]| -> Option<[T; D]> { let mut o = [filler; D]; for i in 0..D { o[i] = f(p[i])?; } Some(o) };
+    let lb = |b: &UB<D>| -> TB<T, D> { [lp(&b[0]).expect("labelled corner"), lp(&b[1]).expect("labelled corner")] };
+    let pts: Vec<(usize, [i32; D], [T; D])> = u.pts.iter().enumerate().filter_map(|(idx, p)| lp(p).map(|x| (idx, *p, x))).collect();
+    let n = |m: &str| sa::<G, T, D>(m);
+    let (st_iv, st_mdv, st_mkv, st_ne, st_cp, st_ep, st_mp, st_p) = (n("is_valid"), n("made_valid"), n("make_valid"), n("new_empty"), n("contains_point"), n("expanded_to_contain_point"), n("expand_to_contain_point"), n("projected_point"));
+    let (st_u, st_i, st_e, st_x, st_c, st_k) = (n("union"), n("intersection"), n("expand_to_contain"), n("intersect"), n(G::CONTAINS_AAB), n(G::COLLIDES_AAB));
+    let st_split: Vec<String> = (0..D).map(|i| n(&format!("split_at_{}", G::AX[i]))).collect();
+    // every box, valid and invalid
+    u.boxes.par_iter().for_each(|b| {
+        let mut t = Tally::new();
+        let x = lb(b);
+        let (w, v) = (wb(b), valid(b));
+        let inp = || json!({"alphabet": alphabet, "box[min,max]": jd(&x)});
+        t.class(alphabet);
+        t.class(if v { "valid" } else { "invalid-box" });
+        run(s, &mut t, true, &st_iv, "wrong-verdict", &inp, w, || G::is_valid(x), &v);
+        let mut fx = *b;
+        for i in 0..D { if fx[0][i] > fx[1][i] { let (lo, hi) = (fx[1][i], fx[0][i]); fx[0][i] = lo; fx[1][i] = hi; } }
+        let want = lb(&fx);
+        run(s, &mut t, !v, &st_mdv, "wrong-repair", &inp, w, || G::made_valid(x), &want);
+        run(s, &mut t, !v, &st_mkv, "wrong-repair", &inp, w, || G::make_valid(x), &want);
+        if !v {
+            let hull = u.closed_mask(&fx);
+            for (idx, p, px) in &pts {
+                let inp = || json!({"alphabet": alphabet, "box[min,max]": jd(&x), "p": jd(px)});
+                run(s, &mut t, hull.get(*idx), &st_cp, "invalid-box-contains-a-point", &inp, w + wp(p), || G::contains_point(x, *px), &false);
+            }
+        }
+        t.flush(s);
+    });
+    // valid boxes: points, cuts, pairs
+    (0..u.vboxes.len()).into_par_iter().for_each(|ai| {
+        let mut t = Tally::new();
+        let a = &u.vboxes[ai];
+        let xa = lb(a);
+        let ma = u.closed[ai];
+        for (idx, p, px) in &pts {
+            let w = wb(a) + wp(p);
+            let inp = || json!({"alphabet": alphabet, "box[min,max]": jd(&xa), "p": jd(px)});
+            let (isin, strict) = (ma.get(*idx), u.open[ai].get(*idx));
+            t.class(if strict { "interior" } else if isin { "boundary" } else { "outside" });
+            run(s, &mut t, !strict, &st_cp, if isin { "point-of-the-box-rejected" } else { "outside-point-accepted" }, &inp, w, || G::contains_point(xa, *px), &isin);
+            let want_e = lb(&u.bbox(&ma.or(Mask::bit(*idx))).unwrap());
+            run(s, &mut t, !isin, &st_ep, "not-the-smallest-box-containing-box-and-point", &inp, w, || G::expanded_pt(xa, *px), &want_e);
+            run(s, &mut t, !isin, &st_mp, "not-the-smallest-box-containing-box-and-point", &inp, w, || G::expand_pt(xa, *px), &want_e);
+            let (_, arg, uniq) = u.nearest(&ma, p);
+            if !uniq { s.rep.machinery_error(format!("nearest point of {:?} to {:?} is not unique", a, p)); }
+            let want_p = lp(&arg).expect("the nearest point has corner or point coordinates");
+            run(s, &mut t, !isin, &st_p, "not-the-nearest-point-of-the-box", &inp, w, || G::proj(xa, *px), &want_p);
+            if ai == 0 {
+                let inp = || json!({"alphabet": alphabet, "p": jd(px)});
+                let want: TB<T, D> = [*px, *px];
+                run(s, &mut t, true, &st_ne, "not-the-single-point-box", &inp, wp(p), || G::new_empty(*px), &want);
+            }
+            if !isin && s.wants_sample() { s.sample(json!({"alphabet": alphabet, "type": T::NAME, "box[min,max]": jd(&xa), "p": jd(px), "projected_point must be": jd(&want_p), "expanded box must be": jd(&want_e)})); }
+        }
+        for axis in 0..D {
+            for sp in a[0][axis]..=a[1][axis] {
+                let Some(spx) = f(sp) else { continue; };
+                let inp = || json!({"alphabet": alphabet, "box[min,max]": jd(&xa), "axis": G::AX[axis], "sp": jd(&spx)});
+                let lo = u.bbox(&ma.and(u.le_mask(axis, sp))).unwrap();
+                let hi = u.bbox(&ma.and(u.ge_mask(axis, sp))).unwrap();
+                let atface = sp == a[0][axis] || sp == a[1][axis];
+                t.class(if atface { "split:at-a-face" } else { "split:interior" });
+                let want = [lb(&lo), lb(&hi)];
+                run(s, &mut t, !atface, &st_split[axis], "pieces-are-not-the-two-sides-of-the-plane", &inp, wb(a) + sp.unsigned_abs() as u64, || G::split(xa, axis, spx), &want);
+            }
+        }
+        for (bi, b) in u.vboxes.iter().enumerate() {
+            let xb = lb(b);
+            let mb = u.closed[bi];
+            let cls = pair_class(u, ai, bi);
+            t.class(cls);
+            let nt = cls != "equal";
+            let w = wb(a) + wb(b);
+            let inp = || json!({"alphabet": alphabet, "a[min,max]": jd(&xa), "b[min,max]": jd(&xb)});
+            let want_u = lb(&u.bbox(&ma.or(mb)).unwrap());
+            run(s, &mut t, nt, &st_u, "not-the-smallest-enclosing-box", &inp, w, || G::union(xa, xb), &want_u);
+            run(s, &mut t, nt, &st_e, "not-the-smallest-enclosing-box", &inp, w, || G::expand_to_contain(xa, xb), &want_u);
+            let common = ma.and(mb);
+            for (site, which) in [(&st_i, 0), (&st_x, 1)] {
+                t.eval(nt);
+                let got = s.call(site, || inp(), || if which == 0 { G::intersection(xa, xb) } else { G::intersect(xa, xb) });
+                if let Some(g) = got {
+                    match u.bbox(&common) {
+                        Some(wi) => { let want = lb(&wi); if g != want { report(s, site, "not-exactly-the-common-points", w, || json!({"input": inp(), "got": jd(&g), "want": jd(&want)})); } }
+                        None => { if !(0..D).any(|i| g[0][i] > g[1][i]) { report(s, site, "valid-result-for-disjoint-boxes", w, || json!({"input": inp(), "got": jd(&g), "want": "an invalid box (min > max on some axis)"})); } }
+                    }
+                }
+            }
+            let want_c = !mb.minus(ma).any();
+            run(s, &mut t, common.any(), &st_c, if want_c { "contained-box-rejected" } else { "box-with-outside-points-accepted" }, &inp, w, || G::contains(xa, xb), &want_c);
+            if posext(a) && posext(b) {
+                let want_k = u.open[ai].and(u.open[bi]).any();
+                run(s, &mut t, common.any(), &st_k, if want_k { "overlap-missed" } else if common.any() { "touching-reported-as-collision" } else { "disjoint-reported-as-collision" }, &inp, w, || G::collides(xa, xb), &want_k);
+            }
+        }
+        t.flush(s);
+    });
+}
+
+/// i32 boxes with corners on ALL integers of a small range (model corner 2k <-> value k; the universe's odd coordinates are
+/// the half-integers, which only the oracle uses): arithmetic methods where integer division truncates
+fn int_arith<G: Geo<D>, const D: usize>(s: &Section, u: &Uni<D>) {
+    let hv = |b: &UB<D>| -> TB<i32, D> { [b[0].map(|v| v / 2), b[1].map(|v| v / 2)] };
+    let n = |m: &str| sa::<G, i32, D>(m);
+    let (st_c, st_s, st_h, st_cv) = (n("center"), n("size"), n("half_size"), n(G::CV_AAB));
+    let (st_ir, st_rf, st_ia, st_af) = (n(G::INTO_RECT), format!("{}::from({})<i32>", G::RECT, G::AAB), sr::<G, i32, D>(G::INTO_AAB), format!("{}::from({})<i32>", G::AAB, G::RECT));
+    u.boxes.par_iter().for_each(|b| {
+        let mut t = Tally::new();
+        let x = hv(b);
+        let r = to_rect(&x);
+        let w = wb(b);
+        let v = valid(b);
+        let odd = (0..D).any(|i| r[1][i] % 2 != 0);
+        t.class(if !v { "negative-extent" } else if odd { "odd-extent" } else { "even-extent" });
+        let ib = || json!({"box[min,max]": jd(&x)});
+        let ir = || json!({"rect[position,extent]": jd(&r)});
+        run(s, &mut t, odd || !v, &st_ir, "rect-denotes-a-different-set", &ib, w, || G::into_rect(x), &r);
+        run(s, &mut t, odd || !v, &st_rf, "rect-denotes-a-different-set", &ib, w, || G::rect_from(x), &r);
+        run(s, &mut t, odd || !v, &st_ia, "box-denotes-a-different-set", &ir, w, || G::r_into_aab(r), &x);
+        run(s, &mut t, odd || !v, &st_af, "box-denotes-a-different-set", &ir, w, || G::aab_from(r), &x);
+        if v {
+            // size is exact; centre and half size are a nearest integer to the exact midpoint / half extent (exact when that is an integer)
+            run(s, &mut t, odd, &st_s, "wrong-extent", &ib, w, || G::size(x), &r[1]);
+            let oddsum = (0..D).any(|i| (x[0][i] + x[1][i]) % 2 != 0);
+            if oddsum { t.class(if (0..D).any(|i| (x[0][i] + x[1][i]) % 2 != 0 && x[0][i] + x[1][i] < 0) { "centre:odd-negative-sum" } else { "centre:odd-sum" }); } else { t.class("centre:even-sum"); }
+            t.eval(oddsum);
+            if let Some(c) = s.call(&st_c, &ib, || G::center(x)) {
+                for i in 0..D {
+                    let sum = x[0][i] + x[1][i];
+                    if (2 * c[i] - sum).abs() > sum.rem_euclid(2) { report(s, &st_c, if sum % 2 == 0 { "not-the-midpoint" } else { "not-a-nearest-integer-to-the-midpoint" }, w, || json!({"input": ib(), "axis": G::AX[i], "got": jd(&c), "exact midpoint x2": sum})); }
+                    if !(x[0][i] <= c[i] && c[i] <= x[1][i]) { report(s, &st_c, "centre-outside-the-box", w, || json!({"input": ib(), "axis": G::AX[i], "got": jd(&c)})); }
+                }
+            }
+            t.eval(odd);
+            if let Some(h) = s.call(&st_h, &ib, || G::half_size(x)) {
+                for i in 0..D {
+                    if (2 * h[i] - r[1][i]).abs() > r[1][i].rem_euclid(2) { report(s, &st_h, if r[1][i] % 2 == 0 { "wrong-half-extent" } else { "not-a-nearest-integer-to-half-the-extent" }, w, || json!({"input": ib(), "axis": G::AX[i], "got": jd(&h), "extent": r[1][i]})); }
+                }
+            }
+            if oddsum && s.wants_sample() { s.sample(json!({"box<i32>[min,max]": jd(&x), "size must be": jd(&r[1]), "2*center - (min+max) must be within": "-1..=1 per axis (0 where the sum is even)"})); }
+        }
+        t.flush(s);
+    });
+    (0..u.vboxes.len()).into_par_iter().for_each(|ai| {
+        let mut t = Tally::new();
+        let a = &u.vboxes[ai];
+        let xa = hv(a);
+        for (bi, b) in u.vboxes.iter().enumerate() {
+            let xb = hv(b);
+            let inp = || json!({"self[min,max]": jd(&xa), "other[min,max]": jd(&xb)});
+            let w = wb(a) + wb(b);
+            let pe = posext(a) && posext(b);
+            // the centres are compared after truncation: a pair is non-trivial when a centre is not an integer
+            let frac = (0..D).any(|i| (xa[0][i] + xa[1][i]) % 2 != 0 || (xb[0][i] + xb[1][i]) % 2 != 0);
+            t.class(if !pe { "cv:zero-extent-operand" } else if !frac { "cv:integer-centres" } else if u.open[ai].and(u.open[bi]).any() { "cv:fractional-centre-penetrating" } else { "cv:fractional-centre-apart" });
+            let Some(v) = s.call(&st_cv, || inp(), || G::cv(xa, xb)) else { t.eval(frac); continue; };
+            for i in 0..D {
+                t.eval(frac);
+                let (lo, hi) = (xa[0][i] - v[i], xa[1][i] - v[i]);
+                if !(hi == xb[0][i] || lo == xb[1][i]) {
+                    report(s, &st_cv, "translated-box-does-not-touch-on-the-axis", w, || json!({"input": inp(), "collision_vector": jd(&v), "axis": G::AX[i], "self interval after translation by -v[axis]": jd(&[lo, hi]), "other interval": jd(&[xb[0][i], xb[1][i]])}));
+                }
+            }
+        }
+        t.flush(s);
+    });
+}
+
+/// Every Rect method against the real Aab method on the harness-converted value, on operands the first version left out:
+/// rectangles with a negative extent (converted invalid boxes) and i32 rectangles with odd extents / odd positions.
+/// `boxes`: (typed box, weight, novel?) - pairs of two non-novel boxes are the old section's and are skipped here.
+fn rect_methods_all<G: Geo<D>, T: El, const D: usize>(s: &Section, alphabet: &'static str, boxes: &[(TB<T, D>, u64, bool)], pts: &[([T; D], u64)], coords: &[(T, u64)]) {
+    let n = |m: &str| sr::<G, T, D>(m);
+    let (st_cp, st_c, st_k, st_ce, st_ep, st_mp, st_u, st_i, st_eu, st_ei, st_cv) = (n("contains_point"), n(G::CONTAINS_RECT), n(G::COLLIDES_RECT), n("center"), n("expanded_to_contain_point"), n("expand_to_contain_point"), n("union"), n("intersection"), n("expand_to_contain"), n("intersect"), n(G::CV_RECT));
+    let st_split: Vec<String> = (0..D).map(|i| n(&format!("split_at_{}", G::AX[i]))).collect();
+    const CL: &str = "differs-from-the-box-method-on-the-converted-value";
+    let isvalid = |x: &TB<T, D>| (0..D).all(|i| x[0][i] <= x[1][i]);
+    (0..boxes.len()).into_par_iter().for_each(|ai| {
+        let mut t = Tally::new();
+        let (xa, wa, na) = boxes[ai];
+        let ra = to_rect(&xa);
+        let va = isvalid(&xa);
+        macro_rules! rhs { ($e:expr) => { match catch(|| $e) { Ok(v) => v, Err(_) => { t.class("box-method-panics:skipped"); continue } } } }
+        if na {
+            t.class(alphabet);
+            for _once in 0..1 {
+                let inp = || json!({"alphabet": alphabet, "rect[position,extent]": jd(&ra)});
+                let want = rhs!(G::center(xa));
+                run(s, &mut t, true, &st_ce, CL, &inp, wa, || G::r_center(ra), &want);
+            }
+            for axis in 0..D {
+                for (spx, wsp) in coords {
+                    // the documented precondition, on the cut axis
+                    if !(xa[0][axis] <= *spx && *spx <= xa[1][axis]) { continue; }
+                    let inp = || json!({"alphabet": alphabet, "rect[position,extent]": jd(&ra), "axis": G::AX[axis], "sp": jd(spx)});
+                    let bx = rhs!(G::split(xa, axis, *spx));
+                    let want = [to_rect(&bx[0]), to_rect(&bx[1])];
+                    t.class("rect,coordinate");
+                    run(s, &mut t, true, &st_split[axis], CL, &inp, wa + wsp, || G::r_split(ra, axis, *spx), &want);
+                }
+            }
+            for (px, wpx) in pts {
+                let w = wa + wpx;
+                let inp = || json!({"alphabet": alphabet, "rect[position,extent]": jd(&ra), "p": jd(px)});
+                t.class("rect,point");
+                let want = rhs!(G::contains_point(xa, *px));
+                run(s, &mut t, true, &st_cp, CL, &inp, w, || G::r_contains_point(ra, *px), &want);
+                let want = to_rect(&rhs!(G::expanded_pt(xa, *px)));
+                run(s, &mut t, true, &st_ep, CL, &inp, w, || G::r_expanded_pt(ra, *px), &want);
+                run(s, &mut t, true, &st_mp, CL, &inp, w, || G::r_expand_pt(ra, *px), &want);
+            }
+        }
+        for (xb, wb_, nb) in boxes {
+            if !(na || *nb) { continue; }
+            let rb = to_rect(xb);
+            let vb = isvalid(xb);
+            let w = wa + wb_;
+            let inp = || json!({"alphabet": alphabet, "a[position,extent]": jd(&ra), "b[position,extent]": jd(&rb)});
+            t.class(if va && vb { "pair:both-valid" } else if va || vb { "pair:one-negative-extent" } else { "pair:both-negative-extent" });
+            let want = rhs!(G::contains(xa, *xb));
+            run(s, &mut t, true, &st_c, CL, &inp, w, || G::r_contains(ra, rb), &want);
+            let want = rhs!(G::collides(xa, *xb));
+            run(s, &mut t, true, &st_k, CL, &inp, w, || G::r_collides(ra, rb), &want);
+            let want = to_rect(&rhs!(G::union(xa, *xb)));
+            run(s, &mut t, true, &st_u, CL, &inp, w, || G::r_union(ra, rb), &want);
+            run(s, &mut t, true, &st_eu, CL, &inp, w, || G::r_expand_to_contain(ra, rb), &want);
+            let want = to_rect(&rhs!(G::intersection(xa, *xb)));
+            run(s, &mut t, true, &st_i, CL, &inp, w, || G::r_intersection(ra, rb), &want);
+            run(s, &mut t, true, &st_ei, CL, &inp, w, || G::r_intersect(ra, rb), &want);
+            let want = rhs!(G::cv(xa, *xb));
+            run(s, &mut t, true, &st_cv, CL, &inp, w, || G::r_cv(ra, rb), &want);
+            if !va && vb && s.wants_sample() { s.sample(json!({"alphabet": alphabet, "type": T::NAME, "a[position,extent]": jd(&ra), "b[position,extent]": jd(&rb), "methods_compared": 7, "e.g. union must be": jd(&to_rect(&rhs!(G::union(xa, *xb))))})); }
+        }
+        t.flush(s);
+    });
+}
+/// the operand lists of `rect_methods_all` for an element type with a linear `from_u`: every box of the universe, novel = invalid
+fn rma_linear<G: Geo<D>, T: El, const D: usize>(s: &Section, u: &Uni<D>, alphabet: &'static str) {
+    let boxes: Vec<(TB<T, D>, u64, bool)> = u.boxes.iter().map(|b| (tb::<T, D>(b), wb(b), !valid(b))).collect();
+    let pts: Vec<([T; D], u64)> = u.pts.iter().map(|p| (tp::<T, D>(p), wp(p))).collect();
+    let coords: Vec<(T, u64)> = (0..u.nc as i32).map(|k| (T::from_u(k + u.base), (k + u.base).unsigned_abs() as u64)).collect();
+    rect_methods_all::<G, T, D>(s, alphabet, &boxes, &pts, &coords);
+}
+/// ... and for i32 with corners on all integers (model 2k <-> k): novel = invalid or some odd coordinate
+fn rma_dense<G: Geo<D>, const D: usize>(s: &Section, u: &Uni<D>, alphabet: &'static str) {
+    let boxes: Vec<(TB<i32, D>, u64, bool)> = u.boxes.iter().map(|b| ([b[0].map(|v| v / 2), b[1].map(|v| v / 2)], wb(b), !valid(b) || b.iter().flatten().any(|v| (v / 2) % 2 != 0))).collect();
+    let pts: Vec<([i32; D], u64)> = u.pts.iter().filter(|p| p.iter().all(|v| v % 2 == 0)).map(|p| (p.map(|v| v / 2), wp(p))).collect();
+    let coords: Vec<(i32, u64)> = (0..u.nc as i32).map(|k| k + u.base).filter(|c| c % 2 == 0).map(|c| (c / 2, c.unsigned_abs() as u64)).collect();
+    rect_methods_all::<G, i32, D>(s, alphabet, &boxes, &pts, &coords);
+}
+
+/// pair laws with an invalid (= empty, see the validity section) operand, as far as the property text fixes them
+fn invalid_operands<G: Geo<D>, T: El, const D: usize>(s: &Section, u: &Uni<D>) {
+    let (st_u, st_e, st_i, st_x, st_c) = (sa::<G, T, D>("union"), sa::<G, T, D>("expand_to_contain"), sa::<G, T, D>("intersection"), sa::<G, T, D>("intersect"), sa::<G, T, D>(G::CONTAINS_AAB));
+    let (st_iv, st_mdv) = (sa::<G, T, D>("is_valid"), sa::<G, T, D>("made_valid"));
+    (0..u.boxes.len()).into_par_iter().for_each(|ai| {
+        let mut t = Tally::new();
+        let a = &u.boxes[ai];
+        let xa = tb::<T, D>(a);
+        let va = valid(a);
+        if !va {
+            // repair sequence: repairing twice is repairing once, and the repaired box is valid
+            let inp = || json!({"box[min,max]": jd(&xa)});
+            run(s, &mut t, true, &st_mdv, "repair-is-not-idempotent", &inp, wb(a), || G::made_valid(G::made_valid(xa)) == G::made_valid(xa), &true);
+            run(s, &mut t, true, &st_iv, "repaired-box-is-not-valid", &inp, wb(a), || G::is_valid(G::make_valid(xa)), &true);
+        }
+        for b in &u.boxes {
+            let vb = valid(b);
+            if va && vb { continue; }
+            let xb = tb::<T, D>(b);
+            let w = wb(a) + wb(b);
+            let inp = || json!({"a[min,max]": jd(&xa), "b[min,max]": jd(&xb)});
+            t.class(if !va && !vb { "invalid,invalid" } else if va { "valid,invalid" } else { "invalid,valid" });
+            // no point is common to the empty set and anything: the result must be invalid
+            for (site, which) in [(&st_i, 0), (&st_x, 1)] {
+                t.eval(true);
+                if let Some(g) = s.call(site, || inp(), || if which == 0 { G::intersection(xa, xb) } else { G::intersect(xa, xb) }) {
+                    if !(0..D).any(|i| g[0][i] > g[1][i]) { report(s, site, "valid-result-although-an-operand-is-empty", w, || json!({"input": inp(), "got": jd(&g), "want": "an invalid box (min > max on some axis)"})); }
+                }
+            }
+            if va != vb {
+                // the union contains both, in particular every point of the valid operand (minimality is not asserted here)
+                let xv = if va { xa } else { xb };
+                for (site, which) in [(&st_u, 0), (&st_e, 1)] {
+                    t.eval(true);
+                    if let Some(g) = s.call(site, || inp(), || if which == 0 { G::union(xa, xb) } else { G::expand_to_contain(xa, xb) }) {
+                        if !(0..D).all(|i| g[0][i] <= xv[0][i] && xv[1][i] <= g[1][i]) { report(s, site, "union-with-an-empty-box-loses-points-of-the-other", w, || json!({"input": inp(), "got": jd(&g), "must contain": jd(&xv)})); }
+                    }
+                }
+                // an empty box contains no point, the valid operand has points: some point of b is not contained
+                if !va { run(s, &mut t, true, &st_c, "empty-box-contains-a-non-empty-box", &inp, w, || G::contains(xa, xb), &false); }
+                else { t.class("contains(valid, invalid): not asserted"); }
+            }
+            if !va && vb && s.wants_sample() { s.sample(json!({"type": T::NAME, "a (invalid)": jd(&xa), "b": jd(&xb), "intersection": "must be invalid", "a contains b": false, "union": "must contain b"})); }
+        }
+        t.flush(s);
+    });
+}
+
+/// the anchored mechanism called directly: Vec partial_min / partial_max and the two vector Clamp impls
+fn vec_mechanism<G: Geo<D>, T: El, const D: usize>(s: &Section, u: &Uni<D>) {
+    let vn = |m: &str| format!("Vec{}::{}<{}>", D, m, T::NAME);
+    let (st_mn, st_mx, st_mna, st_mxa, st_cl, st_ca, st_cs) = (vn("partial_min"), vn("partial_max"), vn("partial_min(arrays)"), vn("partial_max(arrays)"), vn("clamped(Vec,Vec)"), vn("Clamp::clamp(Vec,Vec,Vec)"), vn("clamped(scalar,scalar)"));
+    u.pts.par_iter().for_each(|p| {
+        let mut t = Tally::new();
+        let px = tp::<T, D>(p);
+        for q in &u.pts {
+            let qx = tp::<T, D>(q);
+            let (mut mn, mut mx) = (*p, *p);
+            for i in 0..D { mn[i] = p[i].min(q[i]); mx[i] = p[i].max(q[i]); }
+            let mixed = (0..D).any(|i| p[i] < q[i]) && (0..D).any(|i| p[i] > q[i]);
+            t.class(if mixed { "lanes-disagree" } else { "lanes-agree" });
+            let inp = || json!({"a": jd(&px), "b": jd(&qx)});
+            let w = wp(p) + wp(q);
+            run(s, &mut t, mixed, &st_mn, "not-the-lanewise-minimum", &inp, w, || G::v_partial_min(px, qx), &tp::<T, D>(&mn));
+            run(s, &mut t, mixed, &st_mx, "not-the-lanewise-maximum", &inp, w, || G::v_partial_max(px, qx), &tp::<T, D>(&mx));
+            run(s, &mut t, mixed, &st_mna, "not-the-lanewise-minimum", &inp, w, || G::v_partial_min_arr(px, qx), &tp::<T, D>(&mn));
+            run(s, &mut t, mixed, &st_mxa, "not-the-lanewise-maximum", &inp, w, || G::v_partial_max_arr(px, qx), &tp::<T, D>(&mx));
+        }
+        // scalar bounds lo <= hi: the nearest point of the cube [lo,hi]^D
+        for lo in u.base..u.base + u.nc as i32 { for hi in lo..u.base + u.nc as i32 {
+            let cube: UB<D> = [[lo; D], [hi; D]];
+            let (_, arg, _) = u.nearest(&u.closed_mask(&cube), p);
+            let moved = (0..D).filter(|&i| arg[i] != p[i]).count();
+            t.class(if moved == 0 { "cube:inside" } else if moved == D { "cube:moved-on-every-axis" } else { "cube:moved-on-some-axes" });
+            let (lx, hx) = (T::from_u(lo), T::from_u(hi));
+            let inp = || json!({"p": jd(&px), "lower": jd(&lx), "upper": jd(&hx)});
+            run(s, &mut t, moved > 0, &st_cs, "not-the-nearest-point-of-the-cube", &inp, wp(p) + (lo.unsigned_abs() + hi.unsigned_abs()) as u64, || G::v_clamped_scalar(px, lx, hx), &tp::<T, D>(&arg));
+        } }
+        t.flush(s);
+    });
+    (0..u.vboxes.len()).into_par_iter().for_each(|ai| {
+        let mut t = Tally::new();
+        let a = &u.vboxes[ai];
+        let xa = tb::<T, D>(a);
+        for p in &u.pts {
+            let px = tp::<T, D>(p);
+            let (_, arg, _) = u.nearest(&u.closed[ai], p);
+            let moved = (0..D).filter(|&i| arg[i] != p[i]).count();
+            t.class(if moved == 0 { "box:inside" } else { "box:moved" });
+            let inp = || json!({"p": jd(&px), "lower": jd(&xa[0]), "upper": jd(&xa[1])});
+            let w = wb(a) + wp(p);
+            run(s, &mut t, moved > 0, &st_cl, "not-the-nearest-point-of-the-box", &inp, w, || G::v_clamped(px, xa[0], xa[1]), &tp::<T, D>(&arg));
+            run(s, &mut t, moved > 0, &st_ca, "not-the-nearest-point-of-the-box", &inp, w, || G::v_clamp_alias(px, xa[0], xa[1]), &tp::<T, D>(&arg));
+        }
+        t.flush(s);
+    });
+}
+
+/// call sequences: the outputs of one real method are the inputs of the next
+fn sequences<G: Geo<D>, T: El, const D: usize>(s: &Section, u: &Uni<D>) {
+    let n = |m: &str| sa::<G, T, D>(m);
+    let (st_u, st_i, st_c, st_k, st_mp, st_e, st_x, st_rmp) = (n("union"), n("intersection"), n(G::CONTAINS_AAB), n(G::COLLIDES_AAB), n("expand_to_contain_point"), n("expand_to_contain"), n("intersect"), sr::<G, T, D>("expand_to_contain_point"));
+    // (i) the two pieces of a split, fed back: their union is the box, their intersection is the flat box on the plane, the box
+    // contains both, and - touching faces - they do not collide
+    (0..u.vboxes.len()).into_par_iter().for_each(|ai| {
+        let mut t = Tally::new();
+        let a = &u.vboxes[ai];
+        let xa = tb::<T, D>(a);
+        for axis in 0..D {
+            for sp in a[0][axis]..=a[1][axis] {
+                let spx = T::from_u(sp);
+                let inp = || json!({"box[min,max]": jd(&xa), "axis": G::AX[axis], "sp": jd(&spx), "sequence": "split_at, then the method named by the site on the two pieces"});
+                let Ok(pc) = catch(|| G::split(xa, axis, spx)) else { continue; };
+                let w = wb(a) + sp.unsigned_abs() as u64;
+                let mut plane = *a; plane[0][axis] = sp; plane[1][axis] = sp;
+                let inner = a[0][axis] < sp && sp < a[1][axis];
+                t.class(if inner { "pieces:cut-strictly-inside" } else { "pieces:cut-at-a-face" });
+                run(s, &mut t, inner, &st_u, "union-of-the-split-pieces-is-not-the-box", &inp, w, || G::union(pc[0], pc[1]), &xa);
+                run(s, &mut t, inner, &st_u, "union-of-the-split-pieces-is-not-the-box", &inp, w, || G::union(pc[1], pc[0]), &xa);
+                run(s, &mut t, inner, &st_i, "intersection-of-the-split-pieces-is-not-the-cut-face", &inp, w, || G::intersection(pc[0], pc[1]), &tb::<T, D>(&plane));
+                run(s, &mut t, inner, &st_c, "box-does-not-contain-its-split-piece", &inp, w, || G::contains(xa, pc[0]) && G::contains(xa, pc[1]), &true);
+                if inner && posext(a) {
+                    t.class("pieces:touching-faces");
+                    run(s, &mut t, true, &st_k, "touching-reported-as-collision", &inp, w, || G::collides(pc[0], pc[1]) || G::collides(pc[1], pc[0]), &false);
+                    run(s, &mut t, true, &st_k, "overlap-missed", &inp, w, || G::collides(xa, pc[0]) && G::collides(pc[1], xa), &true);
+                }
+            }
+        }
+        t.flush(s);
+    });
+    // (ii) in-place accumulation of three points from new_empty (box and rectangle twin): the bounding box of the three
+    u.pts.par_iter().enumerate().for_each(|(i0, p0)| {
+        let mut t = Tally::new();
+        let x0 = tp::<T, D>(p0);
+        for (i1, p1) in u.pts.iter().enumerate() { for (i2, p2) in u.pts.iter().enumerate() {
+            let (x1, x2) = (tp::<T, D>(p1), tp::<T, D>(p2));
+            let bb = u.bbox(&Mask::bit(i0).or(Mask::bit(i1)).or(Mask::bit(i2))).unwrap();
+            let grew_twice = !inside(&[*p0, *p0], p1) && !inside(&u.bbox(&Mask::bit(i0).or(Mask::bit(i1))).unwrap(), p2);
+            t.class(if grew_twice { "points:grew-at-both-steps" } else { "points:some-step-idle" });
+            let inp = || json!({"sequence": "new_empty(p0); expand_to_contain_point(p1); expand_to_contain_point(p2)", "p0": jd(&x0), "p1": jd(&x1), "p2": jd(&x2)});
+            let w = wp(p0) + wp(p1) + wp(p2);
+            run(s, &mut t, grew_twice, &st_mp, "accumulated-box-is-not-the-bounding-box-of-the-points", &inp, w, || G::expand_pt(G::expand_pt(G::new_empty(x0), x1), x2), &tb::<T, D>(&bb));
+            run(s, &mut t, grew_twice, &st_rmp, "accumulated-rect-is-not-the-bounding-box-of-the-points", &inp, w, || G::r_expand_pt(G::r_expand_pt(G::into_rect(G::new_empty(x0)), x1), x2), &tb::<T, D>(&rect_of(&bb)));
+        } }
+        t.flush(s);
+    });
+    // (iii) in-place folds over three boxes: expand_to_contain accumulates the bounding box of all points, intersect keeps exactly
+    // the points common to all three and stays invalid once it is (the invalid intermediate is a real result, not a literal)
+    (0..u.vboxes.len()).into_par_iter().for_each(|ai| {
+        let mut t = Tally::new();
+        let xa = tb::<T, D>(&u.vboxes[ai]);
+        for bi in 0..u.vboxes.len() { for ci in 0..u.vboxes.len() {
+            let (xb, xc) = (tb::<T, D>(&u.vboxes[bi]), tb::<T, D>(&u.vboxes[ci]));
+            let (ma, mb, mc) = (u.closed[ai], u.closed[bi], u.closed[ci]);
+            let inp = || json!({"sequence": "x = a; x.<site>(b); x.<site>(c)", "a[min,max]": jd(&xa), "b[min,max]": jd(&xb), "c[min,max]": jd(&xc)});
+            let w = wb(&u.vboxes[ai]) + wb(&u.vboxes[bi]) + wb(&u.vboxes[ci]);
+            let distinct = ai != bi && bi != ci && ai != ci;
+            run(s, &mut t, distinct, &st_e, "fold-is-not-the-bounding-box-of-all-three", &inp, w, || G::expand_to_contain(G::expand_to_contain(xa, xb), xc), &tb::<T, D>(&u.bbox(&ma.or(mb).or(mc)).unwrap()));
+            t.eval(distinct);
+            if let Some(g) = s.call(&st_x, || inp(), || G::intersect(G::intersect(xa, xb), xc)) {
+                match u.bbox(&ma.and(mb).and(mc)) {
+                    Some(wi) => { t.class("fold:common-points"); let want = tb::<T, D>(&wi); if g != want { report(s, &st_x, "fold-is-not-exactly-the-points-common-to-all-three", w, || json!({"input": inp(), "got": jd(&g), "want": jd(&want)})); } }
+                    None => { t.class(if ma.and(mb).any() { "fold:emptied-at-the-second-step" } else { "fold:invalid-intermediate" }); if !(0..D).any(|i| g[0][i] > g[1][i]) { report(s, &st_x, "fold-is-valid-although-no-point-is-common-to-all-three", w, || json!({"input": inp(), "got": jd(&g)})); } }
+                }
+            }
+        } }
+        t.flush(s);
+    });
+}
+
+/// float tier, f32: the same derivation as for f64 with the f32 epsilon
+fn distance_f32<G: Geo<D>, const D: usize>(s: &Section, u: &Uni<D>) {
+    let st = sa::<G, f32, D>("distance_to_point");
+    (0..u.vboxes.len()).into_par_iter().for_each(|ai| {
+        let mut t = Tally::new();
+        let a = &u.vboxes[ai];
+        let xa = tb::<f32, D>(a);
+        for p in &u.pts {
+            let (d2, arg, _) = u.nearest(&u.closed[ai], p);
+            let moved = (0..D).filter(|&i| arg[i] != p[i]).count();
+            t.class(if moved == 0 { "float32:zero" } else if Q::isqrt(d2 as i128).is_some() { "float32:rational" } else { "float32:irrational" });
+            let px = tp::<f32, D>(p);
+            let d2r = d2 as f64 * 0.25;
+            let want = d2r.sqrt();
+            t.eval(moved > 0);
+            let inp = || json!({"box[min,max]": jd(&xa), "p": jd(&px)});
+            if let Some(g) = s.call(&st, || inp(), || G::dist(xa, px)) {
+                if !fl::close32(g, want, want.max(d2r).max(1.0)) { report(s, &st, "not-the-distance-to-the-nearest-point", wb(a) + wp(p), || json!({"input": inp(), "got": g, "want": want})); }
+            }
+        }
+        t.flush(s);
+    });
+}
+
+// ------------------------------------------------------------------------------------------------
 
 fn main() {
     let rep = Report::start("C13", "exploration");
@@ -785,6 +1310,17 @@ fn main() {
     let (c2, c3): (Vec<(usize, i32)>, Vec<(usize, i32)>) = if rep.thorough() { (vec![(4, 0), (4, -4), (8, -8)], vec![(3, 0), (3, -2), (5, -4)]) } else { (vec![(4, 0), (4, -4)], vec![(3, 0), (3, -2)]) };
     let u2s: Vec<Uni<2>> = c2.iter().map(|&(g, sh)| Uni::<2>::new(g, sh)).collect();
     let u3s: Vec<Uni<3>> = c3.iter().map(|&(g, sh)| Uni::<3>::new(g, sh)).collect();
+    // audit additions: dense integer corners (model corner 2k <-> i32 value k), extreme-magnitude tables (no margin: the outermost
+    // corners are the least / greatest values of the type), a larger all-boxes universe for the thorough tier, a small 3D universe for triples
+    let th = rep.thorough();
+    let d2s: Vec<Uni<2>> = if th { vec![Uni::<2>::new(5, -4), Uni::<2>::new(7, -6)] } else { vec![Uni::<2>::new(5, -4)] };
+    let d3s: Vec<Uni<3>> = if th { vec![Uni::<3>::new(3, -2), Uni::<3>::new(4, -4)] } else { vec![Uni::<3>::new(3, -2)] };
+    let e2s: Vec<Uni<2>> = if th { vec![Uni::<2>::with_margin(4, 0, 0), Uni::<2>::with_margin(5, 0, 0)] } else { vec![Uni::<2>::with_margin(4, 0, 0)] };
+    let e3s: Vec<Uni<3>> = if th { vec![Uni::<3>::with_margin(3, 0, 0), Uni::<3>::with_margin(4, 0, 0)] } else { vec![Uni::<3>::with_margin(3, 0, 0)] };
+    let a2s: Vec<Uni<2>> = if th { vec![Uni::<2>::new(6, -6)] } else { vec![] };
+    let a3s: Vec<Uni<3>> = if th { vec![Uni::<3>::new(4, -4)] } else { vec![] };
+    let q3 = if th { Uni::<3>::new(3, -2) } else { Uni::<3>::new(2, -2) };
+    let q2 = if th { Uni::<2>::new(5, -4) } else { Uni::<2>::new(4, -4) };
     rep.extra("universe", json!({"2D": u2s.iter().map(|u| u.describe()).collect::<Vec<_>>(), "3D": u3s.iter().map(|u| u.describe()).collect::<Vec<_>>(),
         "element_unit": {"i32": "1", "X": "1/2", "f64": "0.5"},
         "invalid_operands": "enumerated in the validity section only; pair/point laws are asserted for valid operands (the property fixes no denotation for invalid ones beyond is_valid, make_valid and emptiness)"}));
@@ -801,6 +1337,8 @@ fn main() {
         "every box (valid and invalid) of both universes: the closed/open bit masks used by the oracles are rebuilt point by point from min<=p<=max / min<p<max; bounding box of a valid box's mask is the box; invalid boxes have the empty mask; non-trivial: valid boxes", true, false, |s| {
         s.require_classes(&["valid", "invalid-box"]);
         for u in &u2s { premise(s, u); } for u in &u3s { premise(s, u); }
+        for u in d2s.iter().chain(&e2s).chain(&a2s).chain([&q2]) { premise(s, u); }
+        for u in d3s.iter().chain(&e3s).chain(&a3s).chain([&q3]) { premise(s, u); }
         let u2 = &u2s[0];
         s.sample(json!({"box": jd(&u2.vboxes[u2.vboxes.len() / 2]), "points_in_mask": u2.closed[u2.vboxes.len() / 2].0.iter().map(|w| w.count_ones()).sum::<u32>()}));
         s.meta("scope", json!(scope));
@@ -838,9 +1376,10 @@ fn main() {
     });
     rep.section("distance_to_point",
         "every valid box x every universe point: distance == sqrt(least squared distance to a point of the mask); exact tier X on every case with a rational distance (zero, axis-aligned, Pythagorean), compared with ==; float tier f64 on every case with the derived bound 256*eps*max(distance, distance^2, 1) (inputs are small dyadics: only the square root rounds); i32 is not a Real type; non-trivial: p outside the box", true, false, |s| {
-        s.require_classes(&["exact:zero", "exact:axis-aligned", "exact:pythagorean", "exact:irrational-distance-left-to-the-float-tier", "float:zero", "float:rational", "float:irrational"]);
-        for u in &u2s { distance_exact::<D2, 2>(s, u); distance_float::<D2, 2>(s, u); }
-        for u in &u3s { distance_exact::<D3, 3>(s, u); distance_float::<D3, 3>(s, u); }
+        s.require_classes(&["exact:zero", "exact:axis-aligned", "exact:pythagorean", "exact:irrational-distance-left-to-the-float-tier", "float:zero", "float:rational", "float:irrational", "float32:zero", "float32:rational", "float32:irrational"]);
+        for u in &u2s { distance_exact::<D2, 2>(s, u); distance_float::<D2, 2>(s, u); distance_f32::<D2, 2>(s, u); }
+        for u in &u3s { distance_exact::<D3, 3>(s, u); distance_float::<D3, 3>(s, u); distance_f32::<D3, 3>(s, u); }
+        s.meta("f32 tier", json!("added by the audit: same cases with f32 boxes and points, bound 256*eps32*max(distance, distance^2, 1)"));
         s.meta("scope", json!(scope));
     });
     rep.section("collision_vector_with_aab*",
@@ -903,6 +1442,66 @@ fn main() {
         for u in &u2s { mapping::<D2, 2>(s, u); }
         for u in &u3s { mapping::<D3, 3>(s, u); flatten::<i32>(s, u); flatten::<X>(s, u); flatten::<f64>(s, u); }
         s.meta("scope", json!(scope));
+    });
+
+    // ---- sections added by the audit (out/AUDIT.md) ----
+    rep.section("relabelling: comparison-only methods on dense-integer and extreme-magnitude alphabets",
+        "is_valid, made_valid/make_valid, new_empty, contains_point, expanded_to_contain_point/expand_to_contain_point, projected_point, split_at_*, union/expand_to_contain, intersection/intersect, contains_aab*, collides_with_aab* use only <, <=, min, max, which commute with every strictly increasing relabelling of the coordinates: every box (valid and invalid), every labelled universe point, every admissible cut and every ordered pair of valid boxes, result == label of the mask oracle's result. Alphabets: i32 with corners on ALL integers of a small range (odd and even; half-integer points exist only in the oracle), and for i32, i64, u8, f64 (finite: +-MAX, +-1e300, subnormals), f64 and f32 with +-infinity a strictly increasing table whose corner values include the least and the greatest value of the type (so max-min, min+max overflow the type: an implementation that compares through a difference fails here). non-trivial: as in the corresponding base sections", true, false, |s| {
+        s.require_classes(&["i32:all-integers", "i32:extreme", "i64:extreme", "u8:extreme", "f64:finite-extreme", "f64:infinite", "f32:infinite", "valid", "invalid-box", "interior", "boundary", "outside", "split:interior", "equal", "disjoint", "contained", "colliding", "touching"]);
+        let half = |c: i32| if c % 2 == 0 { Some(c / 2) } else { None };
+        for u in &d2s { ordered_ops::<D2, i32, 2>(s, u, "i32:all-integers", &half); }
+        for u in &d3s { ordered_ops::<D3, i32, 3>(s, u, "i32:all-integers", &half); }
+        macro_rules! tables { ($G:ident, $D:literal, $us:expr) => { for u in $us {
+            let base = u.base;
+            macro_rules! one { ($T:ty, $tab:expr, $name:literal) => {{ let tab: Vec<$T> = sub9(&$tab, u.nc); ordered_ops::<$G, $T, $D>(s, u, $name, &move |c: i32| tab.get((c - base) as usize).copied()); }} }
+            one!(i32, T9_I32, "i32:extreme"); one!(i64, T9_I64, "i64:extreme"); one!(u8, T9_U8, "u8:extreme");
+            one!(f64, T9_F64_FINITE, "f64:finite-extreme"); one!(f64, T9_F64_INF, "f64:infinite"); one!(f32, T9_F32, "f32:infinite");
+        } } }
+        tables!(D2, 2, &e2s); tables!(D3, 3, &e3s);
+        s.meta("tables", json!({"i32": jd(&T9_I32), "i64": jd(&T9_I64), "u8": jd(&T9_U8), "f64 finite": jd(&T9_F64_FINITE), "f64 infinite": jd(&T9_F64_INF), "f32": jd(&T9_F32),
+            "universes": {"dense 2D": d2s.iter().map(|u| u.describe()).collect::<Vec<_>>(), "dense 3D": d3s.iter().map(|u| u.describe()).collect::<Vec<_>>(), "extreme 2D": e2s.iter().map(|u| u.describe()).collect::<Vec<_>>(), "extreme 3D": e3s.iter().map(|u| u.describe()).collect::<Vec<_>>()},
+            "not asserted": "center / size / half_size / collision vector / Rect conversions at these magnitudes: min+max and max-min leave the type (overflow of the element type, outside the property's small-grid quantifier)"}));
+    });
+    rep.section("integer boxes with corners on all integers: centre, size, half size, conversions, collision vector",
+        "i32 boxes with corners on every integer of a small range (2D values -2..2, 3D -1..1; thorough also -3..3 / -2..1): every box, valid and invalid: into_rect / Rect::from / into_aab / Aab::from are field exact (position = min, extent = max - min, negative for invalid boxes); every valid box: size == max - min, centre lies in the box and 2*centre - (min+max) is 0 where the sum is even and within +-1 where it is odd (a nearest integer to the midpoint; rounding direction not asserted), likewise half_size against the extent; every ordered pair of valid boxes and every axis: self translated by -v[axis] has a face on the opposite face of other (centres are compared after integer division here). non-trivial: odd extent / odd sum / a non-integer centre", true, false, |s| {
+        s.require_classes(&["negative-extent", "odd-extent", "even-extent", "centre:odd-sum", "centre:odd-negative-sum", "centre:even-sum", "cv:fractional-centre-penetrating", "cv:fractional-centre-apart", "cv:integer-centres"]);
+        for u in &d2s { int_arith::<D2, 2>(s, u); }
+        for u in &d3s { int_arith::<D3, 3>(s, u); }
+    });
+    rep.section("every Rect method equals the Aab method: negative extents and odd integer rectangles",
+        "the differential of the section 'every Rect method equals the Aab method on the converted value' on the operands it leaves out: every box of the universe valid or INVALID (the rectangle then has a negative extent on the inverted axes) for i32, X, f64, and i32 rectangles with positions and extents on all integers (odd extents, odd positions, negative extents); all 12 method families; split only where min <= sp <= max holds on the cut axis; pairs in which both operands are already in the old section's alphabet are skipped. non-trivial: every evaluation", true, false, |s| {
+        s.require_classes(&["i32:all-integers", "i32", "X", "f64", "rect,point", "rect,coordinate", "pair:both-valid", "pair:one-negative-extent", "pair:both-negative-extent"]);
+        for u in &d2s { rma_dense::<D2, 2>(s, u, "i32:all-integers"); }
+        for u in &d3s { rma_dense::<D3, 3>(s, u, "i32:all-integers"); }
+        rma_linear::<D2, i32, 2>(s, &u2s[1], "i32"); rma_linear::<D2, X, 2>(s, &u2s[1], "X"); rma_linear::<D2, f64, 2>(s, &u2s[1], "f64");
+        rma_linear::<D3, i32, 3>(s, &u3s[1], "i32"); rma_linear::<D3, X, 3>(s, &u3s[1], "X"); rma_linear::<D3, f64, 3>(s, &u3s[1], "f64");
+        for u in &a2s { rma_linear::<D2, i32, 2>(s, u, "i32"); rma_linear::<D2, X, 2>(s, u, "X"); rma_linear::<D2, f64, 2>(s, u, "f64"); }
+        for u in &a3s { rma_linear::<D3, i32, 3>(s, u, "i32"); rma_linear::<D3, f64, 3>(s, u, "f64"); }
+        s.meta("universes", json!({"2D": [u2s[1].describe()], "3D": [u3s[1].describe()], "thorough 2D": a2s.iter().map(|u| u.describe()).collect::<Vec<_>>(), "thorough 3D (i32, f64)": a3s.iter().map(|u| u.describe()).collect::<Vec<_>>()}));
+    });
+    rep.section("invalid operands: what set semantics still fixes",
+        "every ordered pair of boxes of the universe with at least one INVALID operand (an invalid box contains no point - validity section): intersection / intersect must be invalid (no point is common to the empty set and anything); with exactly one invalid operand union / expand_to_contain must contain every point of the valid operand (closed-interval test on the result's fields; minimality not asserted) and contains_aab*(invalid, valid) must be false (the valid box has points, the invalid one contains none); contains_aab*(valid, invalid) (vacuous truth) and collides are not asserted; every invalid box: made_valid is idempotent and make_valid yields a valid box; Rect<->Aab conversions (into_rect, Rect::from, into_aab, Aab::from, both round trips, Rect plumbing), map / as_ and Aabr::from(Aabb) on every invalid box are field exact. non-trivial: every evaluation", true, false, |s| {
+        s.require_classes(&["invalid,invalid", "valid,invalid", "invalid,valid", "negative-extent", "invalid-box"]);
+        // pairs: the two quick universes per dimension (the large thorough universes of the base sections would be 244M pairs in 3D); thorough adds a2s / a3s below
+        for u in u2s.iter().take(2) { invalid_operands::<D2, i32, 2>(s, u); invalid_operands::<D2, X, 2>(s, u); invalid_operands::<D2, f64, 2>(s, u); }
+        for u in u3s.iter().take(2) { invalid_operands::<D3, i32, 3>(s, u); invalid_operands::<D3, X, 3>(s, u); invalid_operands::<D3, f64, 3>(s, u); }
+        all_types!(s, rect_conversions_invalid);
+        for u in &u2s { mapping_invalid::<D2, 2>(s, u); }
+        for u in &u3s { mapping_invalid::<D3, 3>(s, u); flatten_invalid::<i32>(s, u); flatten_invalid::<X>(s, u); flatten_invalid::<f64>(s, u); }
+        for u in &a2s { invalid_operands::<D2, i32, 2>(s, u); invalid_operands::<D2, X, 2>(s, u); invalid_operands::<D2, f64, 2>(s, u); }
+        for u in &a3s { invalid_operands::<D3, i32, 3>(s, u); invalid_operands::<D3, f64, 3>(s, u); }
+    });
+    rep.section("mechanism called directly: Vec partial_min / partial_max and the vector Clamp impls",
+        "Vec2/Vec3::partial_min, partial_max on every ordered pair of universe points, operands passed as vectors and as arrays (the Into<Self> form): lanewise min / max of the model coordinates; <Vec as Clamp<Vec>>::clamped and the Clamp::clamp alias on every valid box (as lower/upper) x every universe point: the point of the box nearest to p (mask search, as projected_point); <Vec as Clamp<T>>::clamped with scalar bounds on every lo <= hi of the universe coordinates (grid and half-grid) x every point: the nearest point of the cube [lo,hi]^D. i32, X, f64. non-trivial: the lanes disagree on which operand is smaller / the point moves", true, false, |s| {
+        s.require_classes(&["lanes-disagree", "lanes-agree", "cube:inside", "cube:moved-on-every-axis", "cube:moved-on-some-axes", "box:inside", "box:moved"]);
+        all_types!(s, vec_mechanism);
+    });
+    rep.section("call sequences: split pieces fed back, in-place accumulation, three-box folds",
+        "real outputs are the next call's inputs. (i) every valid box, axis and admissible cut: union(low, high) (both orders) == the box, intersection(low, high) == the flat box on the cutting plane, the box contains both pieces, and for a cut strictly inside a box of positive extent the pieces - which touch on a face - do not collide with each other while each collides with the box. (ii) every ordered triple of universe points: new_empty(p0) expanded in place by p1 then p2 == bounding box of the three points, for the box and for the rectangle twin started from into_rect(new_empty(p0)). (iii) every ordered triple of valid boxes: x=a; x.expand_to_contain(b); x.expand_to_contain(c) == bounding box of the three masks; x=a; x.intersect(b); x.intersect(c) == the box of the points common to all three, invalid when there are none (including through an invalid intermediate result). 2D universe and a smaller 3D universe (see meta); i32, X, f64. non-trivial: cut strictly inside / the box grew at both steps / three distinct boxes", true, false, |s| {
+        s.require_classes(&["pieces:cut-strictly-inside", "pieces:cut-at-a-face", "pieces:touching-faces", "points:grew-at-both-steps", "points:some-step-idle", "fold:common-points", "fold:emptied-at-the-second-step", "fold:invalid-intermediate"]);
+        sequences::<D2, i32, 2>(s, &q2); sequences::<D2, X, 2>(s, &q2); sequences::<D2, f64, 2>(s, &q2);
+        sequences::<D3, i32, 3>(s, &q3); sequences::<D3, X, 3>(s, &q3); sequences::<D3, f64, 3>(s, &q3);
+        s.meta("universes", json!({"2D": q2.describe(), "3D": q3.describe()}));
     });
     std::process::exit(rep.finish());
 }
